@@ -126,8 +126,12 @@ func (a *accumulator) Bytes() []byte {
 // Packets returns the packets used to fill the payload buffer
 // NOTE: Not thread safe
 func (a *accumulator) Packets() []*Packet {
+	// the caller gets packets of its own: writing to them must not change the accumulator
 	b := make([]*Packet, len(a.packets))
-	copy(b, a.packets)
+	for i, p := range a.packets {
+		cpy := *p
+		b[i] = &cpy
+	}
 
 	return b
 }
